@@ -110,10 +110,10 @@ def shrink(plan, target, fails, max_cand=300, max_s=90):
                 chunk //= 2
         # 3. environment perturbations, one at a time
         for side in ('hist', 'orac'):
-            for key in ('hash', 'clock', 'junk', 'poison'):
-                if cur[side][key] != PLAIN[key]:
+            for key in ('hash', 'clock', 'junk', 'poison', 'environ'):
+                if cur[side].get(key) != PLAIN.get(key):
                     c = copy.deepcopy(cur)
-                    c[side][key] = copy.deepcopy(PLAIN[key])
+                    c[side][key] = copy.deepcopy(PLAIN.get(key))
                     if test(c):
                         cur = c
                         changed = True
